@@ -99,6 +99,104 @@ Proof.
   destruct (lookup k fb) as [tb|] eqn:L'; [|discriminate]. exists fb, tb; auto.
 Qed.
 
+(* ---------------------------------------------------------------- sound and complete for the path specification *)
+Lemma value_eqb_refl : forall v, value_eqb v v = true.
+Proof. intros [z|h]; cbn; [apply Z.eqb_refl | apply String.eqb_refl]. Qed.
+
+Theorem includes_Included : forall a b, includes a b = true -> Included a b.
+Proof.
+  intros a b H p x G. destruct (includes_get p a b x H G) as (y & Gy & I). exists y. split; [assumption|].
+  destruct x as [v|fa|la], y as [w|fb|lb]; try (cbn in I; discriminate); cbn [same_kind].
+  - cbn in I. apply value_eqb_eq; assumption.
+  - exact Logic.I.
+  - rewrite includes_seq in I. symmetry. apply incl_seq_length; assumption.
+Qed.
+
+(* induction over trees with the nested lists *)
+Fixpoint tree_ind' (P : tree -> Prop) (HL : forall v, P (Leaf v))
+  (HN : forall fs, Forall (fun kt => P (snd kt)) fs -> P (Node fs)) (HS : forall l, Forall P l -> P (Seq l)) (t : tree) : P t :=
+  match t with
+  | Leaf v => HL v
+  | Node fs => HN fs ((fix go (l : list (string * tree)) : Forall (fun kt => P (snd kt)) l :=
+                         match l with [] => Forall_nil _ | kt :: r => Forall_cons kt (tree_ind' P HL HN HS (snd kt)) (go r) end) fs)
+  | Seq l => HS l ((fix go (l : list tree) : Forall P l :=
+                      match l with [] => Forall_nil _ | c :: r => Forall_cons c (tree_ind' P HL HN HS c) (go r) end) l)
+  end.
+
+Definition wk_fields (fs : list (string * tree)) : bool := forallb (fun kt => wkb (snd kt)) fs.
+Lemma wkb_node : forall fs, wkb (Node fs) = keys_nodupb (map fst fs) && wk_fields fs.
+Proof.
+  intro fs. cbn [wkb]. f_equal. unfold wk_fields. induction fs as [|[k c] r IH]; [reflexivity|]. cbn [forallb snd]. rewrite <- IH. reflexivity.
+Qed.
+Lemma wkb_seq : forall l, wkb (Seq l) = forallb wkb l.
+Proof. intro l. cbn [wkb]. induction l as [|c r IH]; [reflexivity|]. cbn [forallb]. rewrite <- IH. reflexivity. Qed.
+
+Lemma lookup_nodup : forall fs k c, keys_nodupb (map fst fs) = true -> In (k, c) fs -> lookup k fs = Some c.
+Proof.
+  induction fs as [|[k' c'] r IH]; intros k c ND I; [destruct I|].
+  cbn [map fst keys_nodupb] in ND. apply andb_true_iff in ND. destruct ND as [N1 N2]. cbn [lookup].
+  destruct I as [E|I].
+  - inversion E; subst. rewrite String.eqb_refl. reflexivity.
+  - destruct (String.eqb k k') eqn:Ek.
+    + apply String.eqb_eq in Ek. subst k'. exfalso. apply negb_true_iff in N1.
+      assert (X : existsb (String.eqb k) (map fst r) = true).
+      { apply existsb_exists. exists k. split; [|apply String.eqb_refl]. apply in_map_iff. exists (k, c). split; [reflexivity|assumption]. }
+      rewrite X in N1. discriminate.
+    + apply IH; assumption.
+Qed.
+
+Lemma Included_key : forall fa fb k ta tb, Included (Node fa) (Node fb) -> lookup k fa = Some ta -> lookup k fb = Some tb -> Included ta tb.
+Proof.
+  intros fa fb k ta tb H La Lb p x G. specialize (H (Key k :: p) x). cbn [get] in H. rewrite La, Lb in H. apply H. assumption.
+Qed.
+Lemma Included_idx : forall la lb i x y, Included (Seq la) (Seq lb) -> nth_error la i = Some x -> nth_error lb i = Some y -> Included x y.
+Proof.
+  intros la lb i x y H La Lb p z G. specialize (H (Idx i :: p) z). cbn [get] in H. rewrite La, Lb in H. apply H. assumption.
+Qed.
+
+Lemma incl_seq_complete : forall la, Forall (fun a => forall b, wkb a = true -> Included a b -> includes a b = true) la ->
+  forallb wkb la = true -> forall lb, List.length la = List.length lb ->
+  (forall i x y, nth_error la i = Some x -> nth_error lb i = Some y -> Included x y) -> incl_seq la lb = true.
+Proof.
+  induction la as [|a la IH]; intros F W [|b lb] L H; cbn in L; try discriminate; [reflexivity|].
+  inversion F as [|? ? Fa Fr]; subst. cbn [forallb] in W. apply andb_true_iff in W. destruct W as [Wa Wr].
+  cbn [incl_seq]. apply andb_true_iff. split.
+  - apply Fa; [assumption|]. apply (H 0%nat); reflexivity.
+  - apply IH; [assumption | assumption | congruence |]. intros i x y Hx Hy. apply (H (S i)); assumption.
+Qed.
+
+Theorem Included_includes : forall a, wkb a = true -> forall b, Included a b -> includes a b = true.
+Proof.
+  intro a. induction a as [v|fa IH|la IH] using tree_ind'; intros W b H.
+  - destruct (H [] (Leaf v) eq_refl) as (y & Gy & K). cbn in Gy. inversion Gy; subst y.
+    destruct b as [w|fb|lb]; cbn in K; try contradiction. subst. cbn. apply value_eqb_refl.
+  - destruct (H [] (Node fa) eq_refl) as (y & Gy & K). cbn in Gy. inversion Gy; subst y.
+    destruct b as [w|fb|lb]; cbn in K; try contradiction.
+    rewrite wkb_node in W. apply andb_true_iff in W. destruct W as [ND WF].
+    rewrite includes_node. unfold incl_fields. apply forallb_forall. intros [k ta] I. cbn [fst snd].
+    pose proof (lookup_nodup fa k ta ND I) as La.
+    destruct (H [Key k] ta) as (tb & Gb & _). { cbn [get]. rewrite La. reflexivity. }
+    cbn [get] in Gb. destruct (lookup k fb) as [tb'|] eqn:Lb; [|discriminate]. cbn in Gb. inversion Gb; subst tb'.
+    rewrite Forall_forall in IH. apply (IH (k, ta) I).
+    + unfold wk_fields in WF. rewrite forallb_forall in WF. apply (WF (k, ta) I).
+    + eapply Included_key; eassumption.
+  - destruct (H [] (Seq la) eq_refl) as (y & Gy & K). cbn in Gy. inversion Gy; subst y.
+    destruct b as [w|fb|lb]; cbn in K; try contradiction.
+    rewrite wkb_seq in W. rewrite includes_seq. apply incl_seq_complete; [| assumption | assumption |].
+    + eapply Forall_impl; [|exact IH]. intros a Ha b' Wa Hb. apply Ha; assumption.
+    + intros i x y Hx Hy. eapply Included_idx; eassumption.
+Qed.
+
+(* the checker decides the path specification on well-keyed trees *)
+Theorem includes_iff_Included : forall a b, wkb a = true -> (includes a b = true <-> Included a b).
+Proof. intros a b W. split; [apply includes_Included | apply Included_includes; assumption]. Qed.
+
+(* without well-keyedness completeness fails: a shadowed duplicate key is invisible to paths but not to the checker *)
+Example wk_needed :
+  let a := Node [("k", Leaf (VInt 1)); ("k", Leaf (VInt 2))]%string in let b := Node [("k", Leaf (VInt 1))]%string in
+  wkb a = false /\ includes a b = false /\ get a [Key "k"%string] = Some (Leaf (VInt 1)).
+Proof. repeat split; reflexivity. Qed.
+
 (* the checker is not vacuous: it rejects a changed payload byte, a dropped key and a shortened list *)
 Example includes_examples :
   let a := Node [("name", Leaf (VBytes "77")); ("raw", Leaf (VBytes "0000807f")); ("dims", Seq [Leaf (VInt 2)])]%string in
